@@ -471,6 +471,10 @@ def created_paths(spec):
 def temp_class(name, stage):
     """stable class of a temporary's name: its prefix without the random part
     and the timestamp"""
+    if '_as_csr_' in name:
+        # <file name>[<random>.h5ad]_as_csr_<random>.h5: the CSR transcription
+        return 'h5ad_as_csr' if stage == 'mapping' \
+            else '%s-h5ad_as_csr' % stage
     m = re.match(r'^(.*?)[a-z0-9_]{8}(\.\w+)?$', name)
     base = m.group(1) if m else name
     base = re.sub(r'\d{6,}', '', base).strip('_') or 'tmp'
